@@ -299,6 +299,9 @@ func (n *InfluxQLNode) getCreateFn(kind reflect.Kind) (createReduceContextFunc, 
 	n.currentKind = kind
 	createFn, err := determineReduceContextCreateFn(n.n.Method, kind, n.n.ReduceCreater)
 	if err != nil {
+		// Do not keep the function of the previous kind around, the next point of this
+		// unsupported kind would otherwise get a reducer that cannot aggregate it.
+		n.createFn = nil
 		return nil, errors.Wrapf(err, "invalid influxql func %s with field %s", n.n.Method, n.n.Field)
 	}
 	n.createFn = createFn
